@@ -21,6 +21,9 @@ pub fn run(cfg: &RunCfg) -> Ctx {
             all.floor(k, 3);
         }
     }
+    if !small() {
+        all.merge(seq_cases(cfg, "enc4g-lazy", 8, |_, ctx, i| enc_4g_lazy(ctx, i)));
+    }
     if cfg.thorough && cfg.only.is_none() && std::env::var("VERIF_SKIP_4G").is_err() {
         all.merge(seq_cases(cfg, "enc4g", 1, |_, ctx, _| enc_4g(ctx)));
     }
@@ -356,6 +359,39 @@ fn enc_case(rng: &mut Rng, ctx: &mut Ctx) {
 }
 
 /// One item just over 4 GiB: RESOURCE_EXHAUSTED, earlier message still delivered (thorough only).
+/// The 4 GiB rule without 4 GiB of memory: the message only claims address space (both tiers).
+fn enc_4g_lazy(ctx: &mut Ctx, i: u64) {
+    let role = if i % 2 == 0 { Role::Server } else { Role::Client };
+    let over = (u32::MAX as usize) + 1 + (i as usize / 2) * 4096;
+    // with no send limit configured, and with one far above 4 GiB
+    let limit = if (i / 2) % 2 == 0 { None } else { Some(1usize << 40) };
+    ctx.begin("4g-lazy", json!({"role": format!("{:?}", role), "message_len": over as u64, "send_limit": limit.map(|l| l as u64)}));
+    let steps = vec![SStep::Item(3usize), SStep::Item(over)];
+    let out = encode_run(crate::pb::LenEncoder, steps, Enc::Identity, role, limit, 1);
+    let mut data = Vec::new();
+    let mut status = None;
+    for f in &out.frames {
+        match f {
+            EFrame::Data(d) => {
+                if status.is_some() {
+                    ctx.violation("data-after-status", "DATA after status (4g)".into());
+                }
+                data.extend_from_slice(&d[..d.len().min(100)]);
+            }
+            EFrame::Trailers(t) => status = t.get("grpc-status").and_then(|v| v.to_str().ok()).map(|s| s.to_string()),
+            EFrame::Err(s) => status = Some((s.code() as i32).to_string()),
+        }
+    }
+    if status.as_deref() != Some("8") {
+        ctx.violation("wrong-final-status", format!("a message of {} bytes (over 4 GiB) with send limit {:?}: status {:?}, want 8 (RESOURCE_EXHAUSTED)", over, limit, status));
+    }
+    if data != ref_frame(0, &[7, 7, 7]) {
+        ctx.violation("collateral-loss", format!("message before the 4 GiB item not delivered intact ({} bytes seen)", data.len()));
+    }
+    ctx.count("enc4g.lazy_runs");
+    ctx.fingerprint(format!("enc4g-lazy|{:?}|{}", role, limit.is_some()), true);
+}
+
 fn enc_4g(ctx: &mut Ctx) {
     ctx.begin("4g", json!({"items": [3, "4GiB+1"]}));
     // need ~9 GiB; skip when the machine cannot afford it
